@@ -11,9 +11,11 @@ git -C /repo worktree add -q --detach $base/repo HEAD || exit 2
 (cd $base/repo && git apply /verif/seeded/$id/patch.diff) || { echo "$id: patch does not apply"; exit 2; }
 sed -i "s#=> /repo#=> $base/repo#" $base/verif/harness/go.mod
 cp $base/repo/go.sum $base/verif/harness/go.sum
-out=/verif/seeded/$id/detection.txt
-: > $out
+own=${id##*-}
 for p in "$@"; do
+  # the record for the change's own property is detection.txt; evaluations under other properties go to detection.<prop>.txt
+  if [ "$p" = "$own" ]; then out=/verif/seeded/$id/detection.txt; else out=/verif/seeded/$id/detection.$p.txt; fi
+  : > $out
   (cd $base/verif && VERIF_REPO=$base/repo timeout 3000 ./check $p > $base/$p.out 2>&1; echo "exit=$?" >> $base/$p.out)
   v=$(grep -c '^VIOLATION' $base/$p.out); ex=$(grep '^exit=' $base/$p.out)
   echo "$id $p violations=$v $ex" | tee -a $out
